@@ -1,0 +1,43 @@
+// Copyright 2026 Dolthub, Inc.
+//
+// Licensed under the Apache License, Version 2.0 (the "License");
+// you may not use this file except in compliance with the License.
+// You may obtain a copy of the License at
+//
+//     http://www.apache.org/licenses/LICENSE-2.0
+//
+// Unless required by applicable law or agreed to in writing, software
+// distributed under the License is distributed on an "AS IS" BASIS,
+// WITHOUT WARRANTIES OR CONDITIONS OF ANY KIND, either express or implied.
+// See the License for the specific language governing permissions and
+// limitations under the License.
+
+//go:build verif
+
+package tree
+
+import "context"
+
+// Read-only accessors used by the /verif correspondence harness (property C17).
+// Add-only; compiled only with -tags verif.
+
+// VerifJsonLocationKey returns the serialized jsonLocation key (scanner state
+// startOfValue) for a MySQL JSON path, as jsonPathElementsFromMySQLJsonPath builds it.
+func VerifJsonLocationKey(path string) ([]byte, error) {
+	loc, err := jsonPathElementsFromMySQLJsonPath([]byte(path))
+	if err != nil {
+		return nil, err
+	}
+	return loc.key, nil
+}
+
+// VerifCompareJsonLocationKeys compares two serialized location keys with the
+// ordering used by the JSON location index (jsonLocationOrdering.Compare).
+func VerifCompareJsonLocationKeys(left, right []byte) (int, error) {
+	o := &jsonLocationOrdering{}
+	c, err := o.Compare(context.Background(), left, right)
+	if err != nil {
+		return 0, err
+	}
+	return c, o.err
+}
